@@ -91,3 +91,36 @@ func VH_C18_valuefile_large() {
 		vValueFileRoundTrip("", 1, pre, n, "vfL")
 	}
 }
+
+// ---- the formatting side, on concrete boundary values ----
+//
+// The digit-level harnesses above model valueFile's "%d" (its documented meaning); this one runs the real valueFile
+// (fmt.Sprintf on concrete arguments is the real one in the engine) on the values where a formatting change would show:
+// 0, 1, 9, 10, 2^32, 2^63-1, 2^63, 2^63+1, 2^64-1. It ties the model to the code; the all-values claim is the
+// digit-level one.
+
+//verif:stub vfs os.Rename vRenameDigits
+//verif:stub vfs raft.syncDir vSyncDirNop
+//verif:stub vfs path/filepath.Glob vGlobDigits
+
+//verif:check C18 stubs=vfs reach=end desc="real valueFile + value.set + openValue on boundary values: the name written is the name parsed back, for both positions" bounds="(v1,v2) over {0,1,9,10,2^32,2^63-1,2^63,2^63+1,2^64-1}^2 (81 concrete pairs, except (0,0))"
+func VH_C18_valuefile_boundaries() {
+	vals := []uint64{0, 1, 9, 10, 1 << 32, 1<<63 - 1, 1 << 63, 1<<63 + 1, 1<<64 - 1}
+	dir, ext := "/ghost", ".id"
+	for _, v1 := range vals {
+		for _, v2 := range vals {
+			if v1 == 0 && v2 == 0 {
+				continue
+			}
+			val := &value{dir: dir, ext: ext}
+			vDirName = valueFile(dir, ext, 0, 0)
+			vAssert(val.set(v1, v2) == nil, "vfB-set-ok")
+			got, err := openValue(dir, ext)
+			vAssert(err == nil, "vfB-reopen-succeeds")
+			if err == nil {
+				vAssert(got.v1 == v1 && got.v2 == v2, "vfB-reads-back-what-was-written")
+			}
+		}
+	}
+	vReach("end")
+}
